@@ -225,3 +225,67 @@ PROPS["C07"] = dict(
     assumptions=["cartridge is ROM-only with 8 KiB RAM: the controller is not involved in a dispatch", "device state is power-on (dispatch does not consult it)"],
     replay={"*": "playback"},
 )
+
+PROPS["C08"] = dict(
+    level="model_checking",
+    groups=lambda tier, seed, ctx: [Group("c08", ["verif_c08"], jobs=9, harness_timeout=1800, mem_gb=16)],
+    functions=["emulator::Core::{update,run_interp,handle_interrupt}", "interpreter::{run_next_op,run_op}", "decoder::decode", "mem::{memory_write_byte,memory_read_byte}", "devices::io::IO::{set_byte,run_clock_cycles,get_active_interrupts}"],
+    bounds={"quick": "one Core::update() (instruction-stepped build) from EVERY control state (3 master-enable states x 3 run states x 32x32 IF/IE x A) for each instruction of "
+                     "{EI, DI, RETI, HALT, STOP, NOP, LDH (0x0F),A, LDH (0xFF),A}: the resulting master enable, run state, PC, SP, IF, IE and the pushed return address equal the "
+                     "reference machine's. The relation is equality on the whole control state, so sequences of any length follow by induction",
+            "thorough": "same"},
+    outside=["HALT executed while an enabled interrupt is already pending (excluded by the property)", "PC/SP other than the fixed 0x0150/0xDFF0 (stack position is C07's subject)",
+             "devices raising requests on their own during the step (C09/C13/C14)"],
+    stubs=CTOR_STUBS + ["mem::get_executable_memory_slice -> serves the instruction bytes (natively they are read from ROM)", "Stdout::write/flush -> recorder"],
+    assumptions=["LCD/timer in power-on state: within one step they raise no request"],
+    replay={"*": "playback"},
+)
+
+PROPS["C03"] = dict(
+    level="model_checking",
+    groups=lambda tier, seed, ctx: [Group("c03", ["verif_c03"], features=["jit"], jobs=8, harness_timeout=1800, mem_gb=16)],
+    functions=["cache::blocks::{MemoryLocation::as_u32/from_u32, CacheRegion::insert/get/set_bank, CachedBlocks::get_region/get_region_mut}",
+               "emulator::Core::run_code_block (jit build): lookup / translate-on-miss / call glue", "cache::CodeCache::get_executable_memory_segment",
+               "mem::{get_executable_memory_slice,memory_read_byte,memory_write_byte}", "cart::*::{write_rom,get_rom_bank}"],
+    bounds={"quick": "key packing over all (bank,address) pairs; region insert/get for every tag and address; region split for every ROM address; glue invariant as an inductive step: "
+                     "pre-state with tag == mapped bank, the executed block performs an ARBITRARY guest write below 0x8000 (any bank switch), the next step's lookup must see tag == "
+                     "mapped bank; MBC1 and MBC3, all ROM sizes; translation source == fetch view == data view for every ROM address and every bank state",
+            "thorough": "same"},
+    outside=["a block that switches the bank of the region it is executing from (design limit of block translation)", "BTreeMap itself (std, trusted)", "WRAM/HRAM regions (never translated)",
+             "the translated bytes themselves are C01's subject: the three cache entry points are replaced by monitors here"],
+    stubs=CTOR_STUBS + ["CodeCache::{get_address_for_ip,translate_code_block,call} and interpreter::run_code_block -> monitors (check tag vs mapped bank; perform an arbitrary guest write)",
+                        "MemoryAreas::run_clock_cycles -> no-op"],
+    assumptions=[],
+    replay={"c03_glue_*": "solver-only", "*": "playback"},
+)
+
+_GLUE_STUBS = CTOR_STUBS + ["CPU executor (interpreter::run_next_op / run_code_block, CodeCache::{get_address_for_ip,translate_code_block,call}) -> 'consumes K >= 1 machine cycles, continues at an arbitrary PC, signals an arbitrary status'",
+                            "MemoryAreas::run_clock_cycles -> monitor accumulating delivered clocks", "IO::get_active_interrupts -> its one-line body plus an order monitor"]
+PROPS["C09"] = dict(
+    level="model_checking",
+    groups=lambda tier, seed, ctx: [Group("c09_interp", ["verif_c09"], jobs=6, harness_timeout=1800, mem_gb=16),
+                                    Group("c09_jit", ["verif_c09"], features=["jit"], jobs=6, harness_timeout=1800, mem_gb=16)],
+    functions=["emulator::Core::{update,run_interp,run_code_block,handle_interrupt}", "cpu::Registers::get_consumed_cycles", "timing::MachineCycles::to_clock_cycles"],
+    bounds={"quick": "one Core::update() in BOTH builds (instruction-stepped and block-stepped) from every control state x pending cycles 0..63 x consumed cycles 1..255, PC in ROM and in work RAM: "
+                     "clocks delivered = 4 x (pending + consumed), delivered exactly once and before the interrupt sample, halted step = 4 clocks with CPU cycles untouched, a dispatch leaves 5 cycles pending "
+                     "(one step from an arbitrary state = induction over step sequences). 'Every instruction costs >= 1 cycle' is C06's per-opcode cycle equality; termination of run_frame follows "
+                     "from this step relation and C14's (position advances by the delivered clocks on a 70224 cycle): an argument, not a query",
+            "thorough": "same"},
+    outside=["a single block longer than a frame", "run_frame termination as a direct query (17556+ steps)"],
+    stubs=_GLUE_STUBS, assumptions=["SP = 0xDFF0 (stack position is C07's subject)"],
+    replay={"*": "solver-only"},
+)
+PROPS["C04"] = dict(
+    level="translation_validation",
+    groups=lambda tier, seed, ctx: [Group("c04_interp", ["verif_c04"], jobs=6, harness_timeout=1800, mem_gb=16),
+                                    Group("c04_jit", ["verif_c04"], features=["jit"], jobs=6, harness_timeout=1800, mem_gb=16)],
+    functions=["emulator::Core::run_code_block in both builds (cfg(feature = jit) on and off)", "emulator::Core::handle_interrupt", "mem::can_dynarec"],
+    bounds={"quick": "glue equivalence: Core::run_code_block of BOTH builds against one specification of its tail (status -> run state / master enable, clocks delivered, pending cycles, dispatch, "
+                     "return address) with the block executor cut to one shared nondeterministic transition, from every control state, for PCs in ROM (low and high half), work RAM and high RAM; "
+                     "executor selection: translated code iff PC < 0x8000 and only in the recompiler build. Per-block equivalence (registers, flags, bus trace, cycles, status) is C01 + C02, cache "
+                     "transparency is C03, devices as functions of (bus writes, delivered clocks) are C13-C18: the conjunction is the claim, each conjunct its own solver check",
+            "thorough": "same"},
+    outside=["end-to-end symbolic runs of multi-block programs with live timer/LCD state (decided by composition only)"],
+    stubs=_GLUE_STUBS, assumptions=["SP = 0xDFF0"],
+    replay={"*": "solver-only"},
+)
